@@ -159,7 +159,14 @@ def run(ctx, prop):
         # wrapped_paths / spliced_paths). A rejected step is not a violation (the relation is sufficient,
         # not necessary); the stage outputs above decide the property.
         from harness import steps
-        cov["step_certificates"] = steps.coverage(prop, ctx["tier"], [c["succ"] for c in cases])
+        cov["step_certificates"], big_viol = steps.coverage(prop, ctx["tier"], [c["succ"] for c in cases], ctx["seed"])
+        for v in big_viol[:3]:
+            violations.append({
+                "signature": {"stage": "large-input", "clauses": "trace-differs"},
+                "what": f"C01: the walk by name over the final hierarchy of a {len(v['succ'])}-block input shows a trace that "
+                        f"differs from the input graph's after decisions {v['decisions']}",
+                "payload": {"input_succ": v["succ"], "kind": "large-input-walk", "walks": v["walks"],
+                            "decisions": v["decisions"], "replay_cmd": "./check C01 --replay <this file>"}})
     return {"level": LEVEL, "coverage": cov, "violations": violations, "assumptions": ASSUMPTIONS}
 
 
@@ -174,6 +181,15 @@ ASSUMPTIONS = [
 def replay(path, prop):
     d = json.load(open(os.path.join(common.VERIF, path) if not os.path.isabs(path) else path))
     succ = tuple(tuple(s) for s in d["input_succ"])
+    if d.get("kind") == "large-input-walk":
+        from harness import big
+        st, detail = big.walk_check(succ, tuple(d["walks"]))
+        print(json.dumps({"input_blocks": len(succ), "walk_comparison": st, "detail": detail}))
+        if st != "ok":
+            print(f"VIOLATION property={prop} replay={path}")
+            return 1
+        print("replay: property holds on this input now")
+        return 0
     cs = hier.run_graphs([("replay", succ)], nproc=1)
     fl = case_failures(prop, cs[0])
     print(json.dumps({"input": succ, "stages": cs[0]["stages"], "abort": cs[0]["abort"], "failures": fl}, indent=1))
